@@ -316,11 +316,17 @@ func (p *c09) runSaturation(r *core.CaseResult) {
 	genql.VerifResetSelectorCache()
 	n := 0
 	var rec func(s string)
+	probeNo := 0
+	var check func(round int)
 	rec = func(s string) {
 		if s != "" {
 			gq.Reader(p.docs[1](), s)
 			r.Execs++
 			n++
+			// one fresh probe after every flooding selector: whatever the count of distinct selectors
+			// at which a cache misbehaves, some probe is evaluated at exactly that count
+			probeNo++
+			check(100 + probeNo)
 		}
 		if len(s) == 3 {
 			return
@@ -333,11 +339,15 @@ func (p *c09) runSaturation(r *core.CaseResult) {
 		{key("a"), key("a")}, {key("b"), idx(false, di(1))}, {key("a"), key("zz")}, {key("b"), idx(false, di(7))},
 		{key("a"), key("b"), key("c")}, {key("b"), idx(false, dr(0, 2))}, {key("b"), idx(false, de())},
 	}
-	check := func(round int) {
+	check = func(round int) {
 		for k, steps := range probes {
+			if round >= 100 && k != round%len(probes) {
+				continue // inside the flood: one probe per step, rotating
+			}
 			// a spelling that has not been evaluated before: extra blanks between the steps
-			text := strings.ReplaceAll(selText(steps), ".", strings.Repeat(" ", round+1)+".")
-			text = strings.ReplaceAll(text, "[", strings.Repeat(" ", round+1)+"[")
+			pad := strings.Repeat(" ", round%61+1) + strings.Repeat("\t", round/61)
+			text := strings.ReplaceAll(selText(steps), ".", pad+".")
+			text = strings.ReplaceAll(text, "[", pad+"[")
 			want, werr := refSelect(p.docs[1](), steps)
 			got, err, pan := gq.Reader(p.docs[1](), text)
 			r.Execs++
